@@ -406,6 +406,47 @@ def run_write_failure(spec, acc):
                               {"client": kind, "failing_drain": i, "status": st})
             elif "DISCONNECTED" not in st:
                 acc.violation("failing-write-not-followed-by-reconnect", f"{kind}: drain failure at packet {i} was not reported (status {st})", {"client": kind, "failing_drain": i, "status": st})
+        # the same single failing drain(), but on a client with a past: it lost a link on the read side, somebody called
+        # send() while it was waiting to retry (that send fails too and asks for a reconnection that is already under
+        # way), and it came back. The failing write on the new link must again be followed by a reconnection.
+        for variant in range(4 if quick else 12):
+            async def scenario3(sim, variant=variant):
+                refusals = [1, 2, 3][variant % 3]
+                sim.connect_script = [("accept", 0.001)] + [("refuse", ConnectionRefusedError(111, "refused") if kind != "waveshare" else OSError(2, "No such file or directory"), 0.01)] * refusals
+                sim.spawn("connect")
+                await asyncio.sleep(0.1)
+                sim.conns[-1].reset(simgw.serial_loss_exception() if kind == "waveshare" else ConnectionResetError(104, "reset by peer"))
+                await asyncio.sleep(0.05 + 0.2 * (variant // 3))
+                for _ in range(1 + variant % 2):
+                    sim.spawn("send", others[0])              # during the retry wait: nothing to write on
+                    await asyncio.sleep(0.02)
+                for _ in range(8000):
+                    if len(sim.conns) > 1 and sim.client.state.name == "CONNECTED":
+                        break
+                    await asyncio.sleep(0.01)
+                await asyncio.sleep(0.5)
+                sim.mark = (len(sim.conns), len(sim.status))
+                if len(sim.conns) > 1:
+                    sim.conns[-1].drain_fails = 0
+                    await sim.call("send", m)
+                await asyncio.sleep(40.0)
+                await sim.call("close")
+            sim, stats = simgw.run_session(kind, scenario3)
+            acc.count("sessions")
+            acc.count("write_failures_checked")
+            acc.count("write_failures_after_a_send_during_retry_wait")
+            acc.case((kind, "drain_failure_after_send_during_retry_wait", variant))
+            if stats["error"]:
+                acc.inconclusive_because(f"simulator: {stats['error']}")
+                continue
+            n_conn, n_stat = getattr(sim, "mark", (0, 0))
+            if n_conn < 2:
+                acc.count("second_connection_not_opened")       # recovery itself is C13's business
+                continue
+            later = sim.status[n_stat:]
+            if later[:1] != ["DISCONNECTED"] or later[-2:] != ["CONNECTED", "CLOSED"] or len(sim.conns) <= n_conn:
+                acc.violation("failing-write-not-followed-by-reconnect", f"{kind}: after a read loss, a send during the retry wait and a recovery, a failing write on the new link gave "
+                              f"status {later} and {len(sim.conns) - n_conn} new connection(s)", {"client": kind, "variant": variant, "status": sim.status})
         for i in range(n):
             async def scenario(sim, i=i):
                 sim.spawn("connect")
